@@ -336,29 +336,26 @@ Qed.
 Lemma append_spec a new : append a new = a ++ new.
 Proof. reflexivity. Qed.
 
-Lemma collect_ok kd walk items : collect kd walk = Ok items -> items = filter (wanted kd) walk.
+(* collect_items since 4cfc8ff5: the items are the walked paths that pass, one per entry name *)
+Lemma collect_ok kd walk items : collect kd walk = Ok items -> items = update_targets kd walk.
 Proof. unfold collect. destruct (existsb missing walk); intro H; inversion H. reflexivity. Qed.
+Lemma collect_orig_ok kd walk items : collect_orig kd walk = Ok items -> items = filter (wanted kd) walk.
+Proof. unfold collect_orig. destruct (existsb missing walk); intro H; inversion H. reflexivity. Qed.
 Lemma build_ok kt ns es : build kt ns = Ok es -> es = map (fresh kt) ns.
 Proof. unfold build. destruct (forallb creatable ns); intro H; inversion H. reflexivity. Qed.
 
+Theorem create_cmd_spec kd kt walk a' :
+  create_cmd kd kt walk = Ok a' -> a' = map (fresh kt) (update_targets kd walk).
+Proof.
+  unfold create_cmd. destruct (collect kd walk) as [items| |] eqn:C; cbn; try discriminate.
+  intro B. apply collect_ok in C. apply build_ok in B. subst. reflexivity.
+Qed.
 Theorem append_cmd_spec kd kt a walk a' :
-  append_cmd kd kt a walk = Ok a' -> a' = a ++ map (fresh kt) (filter (wanted kd) walk).
+  append_cmd kd kt a walk = Ok a' -> a' = a ++ map (fresh kt) (update_targets kd walk).
 Proof.
   unfold append_cmd. destruct (collect kd walk) as [items| |] eqn:C; cbn; try discriminate.
   destruct (build kt items) as [new| |] eqn:B; cbn; try discriminate.
   intro H. inversion H. apply collect_ok in C. apply build_ok in B. subst. reflexivity.
-Qed.
-
-Lemma update_cmd_ok kd kt excl cond a walk a' :
-  update_cmd kd kt excl cond a walk = Ok a' ->
-  let r := update_pass excl cond a (update_targets kd walk) [] in
-  a' = fst (fst r) ++ map (fresh kt) (snd (fst r) ++ snd r).
-Proof.
-  unfold update_cmd. destruct (collect kd walk) as [items| |] eqn:C; cbn; try discriminate.
-  apply collect_ok in C. subst items. fold (update_targets kd walk).
-  destruct (update_pass excl cond a (update_targets kd walk) []) as [[k j] t]. cbn.
-  destruct (build kt (j ++ t)) as [new| |] eqn:B; cbn; try discriminate.
-  intro H. inversion H. apply build_ok in B. subst. reflexivity.
 Qed.
 
 Lemma find_names e targets n : find (names_entry e) targets = Some n -> In n targets /\ node_name n = e_path e.
@@ -462,6 +459,21 @@ Proof.
 Qed.
 Lemma unnamed_dedup l e : unnamed (dedup_names l) e = unnamed l e.
 Proof. unfold unnamed. f_equal. apply mem_ext. intro q. apply dedup_names_names. Qed.
+(* update.rs applies the rule of collect_items a second time: nothing changes *)
+Lemma dedup_names_idem l : dedup_names (dedup_names l) = dedup_names l.
+Proof. apply dedup_names_id. apply dedup_names_nodup. Qed.
+
+Lemma update_cmd_ok kd kt excl cond a walk a' :
+  update_cmd kd kt excl cond a walk = Ok a' ->
+  let r := update_pass excl cond a (update_targets kd walk) [] in
+  a' = fst (fst r) ++ map (fresh kt) (snd (fst r) ++ snd r).
+Proof.
+  unfold update_cmd. destruct (collect kd walk) as [items| |] eqn:C; cbn; try discriminate.
+  apply collect_ok in C. subst items. unfold update_targets at 1. rewrite dedup_names_idem. fold (update_targets kd walk).
+  destruct (update_pass excl cond a (update_targets kd walk) []) as [[k j] t]. cbn.
+  destruct (build kt (j ++ t)) as [new| |] eqn:B; cbn; try discriminate.
+  intro H. inversion H. apply build_ok in B. subst. reflexivity.
+Qed.
 
 Theorem update_keeps_others_targets kd kt excl cond a walk a' :
   update_cmd kd kt excl cond a walk = Ok a' ->
@@ -788,13 +800,117 @@ Proof.
     apply in_app_or in Hx. destruct Hx as [Hx|Hx]; eapply In_map_filter; eauto.
 Qed.
 
+(* ---- create / append: one entry per entry name among the walked paths (4cfc8ff5) ---- *)
+(* walking left to right, a path is an item iff no earlier path has its entry name *)
+Lemma dedup_seen_snoc : forall l seen n,
+  dedup_seen seen (l ++ [n]) = dedup_seen seen l ++ (if mem (node_name n) (seen ++ map node_name l) then [] else [n]).
+Proof.
+  induction l as [|m r IH]; intros seen n; cbn [app dedup_seen map].
+  - rewrite app_nil_r. destruct (mem (node_name n) seen); reflexivity.
+  - destruct (mem (node_name m) seen) eqn:M.
+    + rewrite IH. f_equal.
+      rewrite (mem_ext (node_name n) (seen ++ map node_name r) (seen ++ node_name m :: map node_name r)); [reflexivity|].
+      intro q. rewrite !in_app_iff. cbn [In].
+      split; [tauto|]. intros [H|[H|H]]; auto. subst q. left. apply mem_In. exact M.
+    + rewrite IH. cbn [app]. f_equal. f_equal.
+      rewrite (mem_ext (node_name n) (node_name m :: seen ++ map node_name r) (seen ++ node_name m :: map node_name r)); [reflexivity|].
+      intro q. cbn [In]. rewrite !in_app_iff. cbn [In]. tauto.
+Qed.
+Lemma dedup_names_snoc l n :
+  dedup_names (l ++ [n]) = dedup_names l ++ (if mem (node_name n) (map node_name l) then [] else [n]).
+Proof. unfold dedup_names. rewrite dedup_seen_snoc. reflexivity. Qed.
+Lemma update_targets_nil kd : update_targets kd [] = [].
+Proof. reflexivity. Qed.
+Lemma update_targets_snoc kd walk n :
+  update_targets kd (walk ++ [n])
+  = update_targets kd walk ++ (if wanted kd n && negb (mem (node_name n) (map node_name (filter (wanted kd) walk))) then [n] else []).
+Proof.
+  unfold update_targets. rewrite filter_app. cbn [filter]. destruct (wanted kd n); cbn [andb].
+  - rewrite dedup_names_snoc. destruct (mem _ _); reflexivity.
+  - rewrite !app_nil_r. reflexivity.
+Qed.
+(* an item is the first walked path of its entry name, and the first walked path of every name is an item *)
+Lemma dedup_names_first l n : In n (dedup_names l) <-> find (named_p (node_name n)) l = Some n.
+Proof.
+  split.
+  - intro Hn. destruct (find_named_in l n (dedup_names_incl l n Hn)) as [n' F]. rewrite F. f_equal.
+    assert (Hn' : In n' (dedup_names l)) by (apply (find_dedup_seen (node_name n)); auto).
+    assert (E : node_name n' = node_name n).
+    { apply find_some in F. destruct F as [_ F]. unfold named_p in F. apply bytes_eqb_eq in F. exact F. }
+    pose proof (named_unique _ _ (dedup_names_nodup l) Hn) as U.
+    assert (In n' (filter (named_p (node_name n)) (dedup_names l))) as Hf.
+    { apply filter_In. split; auto. unfold named_p. rewrite E. apply bytes_eqb_refl. }
+    rewrite U in Hf. destruct Hf as [Hf|[]]. auto.
+  - intro F. apply (find_dedup_seen (node_name n)); auto.
+Qed.
+Theorem update_targets_spec kd walk :
+  NoDup (map node_name (update_targets kd walk)) /\
+  (forall q, In q (map node_name (update_targets kd walk)) <-> In q (map node_name (filter (wanted kd) walk))) /\
+  (forall n, In n (update_targets kd walk) <-> find (named_p (node_name n)) (filter (wanted kd) walk) = Some n) /\
+  (NoDup (map node_name (filter (wanted kd) walk)) -> update_targets kd walk = filter (wanted kd) walk).
+Proof.
+  split; [apply update_targets_nodup|]. split; [intro q; apply dedup_names_names|].
+  split; [intro n; apply dedup_names_first|]. apply dedup_names_id.
+Qed.
+
+Theorem create_nodup kd kt walk a' : create_cmd kd kt walk = Ok a' -> NoDup (names a').
+Proof. intro H. apply create_cmd_spec in H. subst a'. rewrite names_fresh. apply update_targets_nodup. Qed.
+
+(* every path the walker yields and collect_items lets pass is held exactly once by the created archive, as the
+   entry built from the first walked path of that name *)
+Theorem create_exactly_once kd kt walk a' n :
+  create_cmd kd kt walk = Ok a' ->
+  In n (filter (wanted kd) walk) ->
+  exists n', find (fun m => bytes_eqb (node_name m) (node_name n)) (filter (wanted kd) walk) = Some n' /\
+    node_name n' = node_name n /\
+    filter (fun e => bytes_eqb (e_path e) (node_name n)) a' = [fresh kt n'].
+Proof.
+  intros H Hn. apply create_cmd_spec in H. subst a'. destruct (find_named_in _ _ Hn) as [n' F]. exists n'.
+  change (fun m => bytes_eqb (node_name m) (node_name n)) with (named_p (node_name n)).
+  split; [exact F|].
+  assert (E : node_name n' = node_name n).
+  { apply find_some in F. destruct F as [_ F]. unfold named_p in F. apply bytes_eqb_eq in F. exact F. }
+  split; [exact E|]. rewrite <- E.
+  change (fun e => bytes_eqb (e_path e) (node_name n')) with (at_p (node_name n')).
+  rewrite filter_map_fresh, named_unique; auto; [apply update_targets_nodup|].
+  unfold update_targets, dedup_names. apply (find_dedup_seen (node_name n)); auto.
+Qed.
+(* the entries append adds: the same, after the archive's own entries *)
+Theorem append_new_exactly_once kd kt a walk a' n :
+  append_cmd kd kt a walk = Ok a' ->
+  In n (filter (wanted kd) walk) ->
+  exists n' new, a' = a ++ new /\
+    find (fun m => bytes_eqb (node_name m) (node_name n)) (filter (wanted kd) walk) = Some n' /\
+    node_name n' = node_name n /\
+    filter (fun e => bytes_eqb (e_path e) (node_name n)) new = [fresh kt n'].
+Proof.
+  intros H Hn. apply append_cmd_spec in H. subst a'. destruct (find_named_in _ _ Hn) as [n' F].
+  exists n', (map (fresh kt) (update_targets kd walk)). split; [reflexivity|].
+  change (fun m => bytes_eqb (node_name m) (node_name n)) with (named_p (node_name n)).
+  split; [exact F|].
+  assert (E : node_name n' = node_name n).
+  { apply find_some in F. destruct F as [_ F]. unfold named_p in F. apply bytes_eqb_eq in F. exact F. }
+  split; [exact E|]. rewrite <- E.
+  change (fun e => bytes_eqb (e_path e) (node_name n')) with (at_p (node_name n')).
+  rewrite filter_map_fresh, named_unique; auto; [apply update_targets_nodup|].
+  unfold update_targets, dedup_names. apply (find_dedup_seen (node_name n)); auto.
+Qed.
+
+(* what a step of a history must satisfy for names to stay unique: nothing for create (4cfc8ff5), update (a048f63a),
+   delete and re-split; append never reads the names the archive holds (append.rs: seek to the end, write), so a
+   walked path whose name is archived already is archived again: that clause stays (append_existing_name_twice) *)
 Definition op_ok (a : archive) (o : op) : Prop :=
   match o with
-  | OCreate kd _ w => NoDup (map node_name (filter (wanted kd) w))
-  | OAppend kd _ w => NoDup (map node_name (filter (wanted kd) w))
-                      /\ forall n, In n (filter (wanted kd) w) -> ~ In (node_name n) (names a)
-  | OUpdate _ _ _ _ _ | ODelete _ | ONop => True      (* update de-duplicates what the walker yields (a048f63a) *)
+  | OAppend kd _ w => forall n, In n (filter (wanted kd) w) -> ~ In (node_name n) (names a)
+  | OCreate _ _ _ | OUpdate _ _ _ _ _ | ODelete _ | ONop => True
   end.
+Lemma op_ok_create a kd kt walk : op_ok a (OCreate kd kt walk) <-> True.
+Proof. cbn. tauto. Qed.
+Lemma op_ok_update a kd kt excl cond walk : op_ok a (OUpdate kd kt excl cond walk) <-> True.
+Proof. cbn. tauto. Qed.
+Lemma op_ok_append a kd kt walk :
+  op_ok a (OAppend kd kt walk) <-> (forall n, In n (filter (wanted kd) walk) -> ~ In (node_name n) (names a)).
+Proof. cbn. tauto. Qed.
 Fixpoint hist_ok (a : archive) (ops : list op) : Prop :=
   match ops with
   | [] => True
@@ -805,12 +921,12 @@ Lemma step_nodup a o : NoDup (names a) -> op_ok a o -> NoDup (names (after a o))
 Proof.
   intros ND OK. unfold after. destruct (step a o) as [a'| |] eqn:S; auto.
   destruct o as [kd kt w|kd kt w|kd kt ex c w|m|]; cbn in *.
-  - unfold create_cmd in S. destruct (collect kd w) as [items| |] eqn:C; cbn in S; try discriminate.
-    apply collect_ok in C. apply build_ok in S. subst. rewrite names_fresh. exact OK.
+  - eapply create_nodup; eauto.
   - apply append_cmd_spec in S. subst a'. unfold names. rewrite map_app.
-    fold (names (map (fresh kt) (filter (wanted kd) w))). rewrite names_fresh.
-    destruct OK as [O1 O2]. apply nodup_app; auto.
-    intros x Hx Hn. apply in_map_iff in Hn. destruct Hn as [n [E Hn]]. apply (O2 n Hn). rewrite E. exact Hx.
+    fold (names (map (fresh kt) (update_targets kd w))). rewrite names_fresh.
+    apply nodup_app; auto; [apply update_targets_nodup|].
+    intros x Hx Hn. apply in_map_iff in Hn. destruct Hn as [n [E Hn]].
+    apply (OK n (dedup_names_incl _ _ Hn)). rewrite E. exact Hx.
   - eapply update_nodup; eauto.
   - inversion S. subst. unfold delete, delete_by. apply NoDup_map_filter. exact ND.
   - inversion S. subst. exact ND.
@@ -821,6 +937,20 @@ Proof.
   induction ops as [|o r IH]; intros a ND H; cbn in *; auto.
   destruct H as [H1 H2]. apply IH; auto. apply step_nodup; auto.
 Qed.
+
+(* a history without append asks nothing at all *)
+Fixpoint no_append (ops : list op) : Prop :=
+  match ops with
+  | [] => True
+  | OAppend _ _ _ :: _ => False
+  | _ :: r => no_append r
+  end.
+Lemma no_append_hist_ok : forall ops a, no_append ops -> hist_ok a ops.
+Proof.
+  induction ops as [|o r IH]; intros a H; cbn; auto. destruct o; cbn in *; try tauto; split; auto.
+Qed.
+Theorem history_invariant_no_append ops a : NoDup (names a) -> no_append ops -> NoDup (names (final a ops)).
+Proof. intros ND H. apply history_invariant; auto. apply no_append_hist_ok. exact H. Qed.
 
 Lemma delete_spec matched a :
   delete matched a = filter (fun e => negb (mem (e_path e) matched)) a.
@@ -882,3 +1012,43 @@ Lemma update_overlap_repaired_witness :
   update_cmd false false [] 0 ov_a ov_walk
   = Ok [mkE (lit "t/a") 0 (lit "one") None; mkE (lit "t/b") 0 (lit "two") None].
 Proof. vm_compute. reflexivity. Qed.
+
+(* ---- create / append as they were before 4cfc8ff5 (overlapping file arguments), kept for the record ---- *)
+(* pna create x.pna t/a t/a  (or -r t t/a, ./t/a t/a): the walker yields t/a twice *)
+Definition ovc_walk : list node := [mkN (lit "t/a") 0 (lit "one") 1700000000000000000; mkN (lit "./t/a") 0 (lit "one") 1700000000000000000].
+Lemma create_overlap_unrepaired :
+  exists walk a', create_cmd_orig false false walk = Ok a' /\
+    names a' = [lit "t/a"; lit "t/a"] /\ ~ NoDup (names a').
+Proof.
+  exists ovc_walk, [mkE (lit "t/a") 0 (lit "one") None; mkE (lit "t/a") 0 (lit "one") None].
+  split; [vm_compute; reflexivity|]. split; [vm_compute; reflexivity|].
+  intro ND. inversion ND as [|x l H _]; subst. apply H. left. reflexivity.
+Qed.
+Lemma create_overlap_repaired_witness :
+  create_cmd false false ovc_walk = Ok [mkE (lit "t/a") 0 (lit "one") None].
+Proof. vm_compute. reflexivity. Qed.
+Lemma append_overlap_unrepaired :
+  exists a walk a', NoDup (names a) /\ (forall n, In n (filter (wanted false) walk) -> ~ In (node_name n) (names a)) /\
+    append_cmd_orig false false a walk = Ok a' /\
+    names a' = [lit "t/a"; lit "t/b"; lit "t/b"] /\ ~ NoDup (names a').
+Proof.
+  exists ov_a, ov_walk, [mkE (lit "t/a") 0 (lit "one") None; mkE (lit "t/b") 0 (lit "two") None; mkE (lit "t/b") 0 (lit "two") None].
+  split; [repeat constructor; cbn; tauto|]. split.
+  { intros n Hn Hin. cbn in Hn. destruct Hn as [<-|[<-|[]]]; vm_compute in Hin; destruct Hin as [Hin|[]]; discriminate. }
+  split; [vm_compute; reflexivity|]. split; [vm_compute; reflexivity|].
+  intro ND. inversion ND as [|x l _ ND1]; subst. inversion ND1 as [|x l H _]; subst. apply H. left. reflexivity.
+Qed.
+Lemma append_overlap_repaired_witness :
+  append_cmd false false ov_a ov_walk
+  = Ok [mkE (lit "t/a") 0 (lit "one") None; mkE (lit "t/b") 0 (lit "two") None].
+Proof. vm_compute. reflexivity. Qed.
+(* the clause op_ok keeps for append is needed: append does not look at the names the archive holds *)
+Lemma append_existing_name_twice :
+  exists a walk a', NoDup (names a) /\ append_cmd false false a walk = Ok a' /\
+    names a' = [lit "t/a"; lit "t/a"] /\ ~ NoDup (names a').
+Proof.
+  exists ov_a, [mkN (lit "t/a") 0 (lit "new") 1700000000000000000],
+         [mkE (lit "t/a") 0 (lit "one") None; mkE (lit "t/a") 0 (lit "new") None].
+  split; [repeat constructor; cbn; tauto|]. split; [vm_compute; reflexivity|]. split; [vm_compute; reflexivity|].
+  intro ND. inversion ND as [|x l H _]; subst. apply H. left. reflexivity.
+Qed.
